@@ -23,6 +23,7 @@ import QV.Real
 import QV.Model.Cplx
 import QV.Lemmas.CplxTensor
 import QV.Lemmas.CplxStorage
+import QV.Lemmas.CplxEinsumEq
 
 namespace QV.Props
 namespace C15
@@ -477,6 +478,28 @@ theorem C15_matmul_batched_mat_vec {x y : Tensor R} {xb : List Nat} {m k : Nat}
   simp only [List.nil_append]
   rw [pentry_vec_right hy c.isLt]
 
+/-- **matmul, one vector · batched matrices** `(k) · (…, k, p)` (torch promotes the vector to `1×k`, broadcasts it
+over the batch axes and removes the added axis): `z(batch, j) = Σ_c x_c · y(batch, c, j)`. -/
+theorem C15_matmul_vec_batched {x y : Tensor R} {yb : List Nat} {k p : Nat}
+    (hx : IsCplx x [k]) (hy : IsCplx y (yb ++ [k, p])) :
+    ∃ z, matmul x y = .ok z ∧ IsCplx z (yb ++ [p]) ∧
+      ∀ bi j, Valid yb bi → j < p →
+        centry z (bi ++ [j]) = C.sum k (fun c => C.mul (centry x [c.val]) (centry y (bi ++ [c.val, j]))) := by
+  have hly : ((yb ++ [k, p]).length == 1) = false := by simp
+  obtain ⟨z, hz, hc, he⟩ := matmul_core (xb := []) (yb := yb) (bs := yb) (m := 1) (k := k) (p := p) hx hy
+    (by simp) (by simp) (by simp) (by simp) (broadcastShape_nil_left yb) (by simp [numel_append, numel])
+  simp only [hly, Bool.false_eq_true, if_false, List.length_cons, List.length_nil,
+    show ((0 + 1 == 1) = true) = True by simp, if_true, List.append_nil] at hc he
+  refine ⟨z, hz, hc, fun bi j hbi hj => ?_⟩
+  have hl := hbi.length
+  rw [he (bi ++ [j]) bi 0 j ((valid_append hl).2 ⟨hbi, by simp [hj]⟩) hbi (by omega) hj
+    (by rw [flatten_append hl, flatten_append hl]; simp [flatten, numel])]
+  congr 1
+  funext c
+  rw [bidx_self hbi, bidx_nil, pentry_self hy ((valid_append hl).2 ⟨hbi, by simp [hj]⟩)]
+  simp only [List.nil_append]
+  rw [pentry_vec_left hx c.isLt]
+
 /-- **matmul, vector · matrix**: `z_j = Σ_c x_c · y(c, j)`. -/
 theorem C15_matmul_vec_mat {x y : Tensor R} {k p : Nat} (hx : IsCplx x [k]) (hy : IsCplx y [k, p]) :
     ∃ z, matmul x y = .ok z ∧ IsCplx z [p] ∧
@@ -729,6 +752,100 @@ theorem C15_rejects_einsum {a b : Tensor R} {sa sb : List Nat} (eq : EinEq) (ha 
     rw [einsumR_err (x := reT a sa) (y := imT b sb) (sa := sa) (sb := sb) rfl rfl hok]; rfl
   cases rp <;> cases ip <;> simp_all [einsum, einsumFull]
 
+/-! #### the equation string: implicit output, ellipsis (everything `torch.einsum` accepts for two operands) -/
+
+/-- **explicit equations without ellipsis are taken as written** (so every theorem above applies to them), provided each
+operand has one subscript per axis; otherwise torch's `RuntimeError`. -/
+theorem C15_einsum_explicit_equation (a b o sa sb : List Nat) :
+    elabEq ⟨a.map Tok.lab, b.map Tok.lab, some (o.map Tok.lab)⟩ sa sb
+      = if a.length = sa.length ∧ b.length = sb.length then .ok ⟨a, b, o⟩ else .error .RuntimeError := by
+  unfold elabEq ellCover
+  simp only [labels_map_lab, ellCount_map_lab, expandSub_map_lab]
+  by_cases h1 : a.length = sa.length <;> by_cases h2 : b.length = sb.length <;> simp [h1, h2]
+
+/-- **implicit output** (`"ij,jk"`, no `->`): the operands' subscripts are kept and the output consists of exactly the
+labels that occur ONCE in the two operands together, in strictly increasing order of their character codes. -/
+theorem C15_einsum_implicit_output (a b sa sb : List Nat) :
+    elabEq ⟨a.map Tok.lab, b.map Tok.lab, none⟩ sa sb
+      = (if a.length = sa.length ∧ b.length = sb.length then .ok ⟨a, b, onceLabels (a ++ b)⟩ else .error .RuntimeError) ∧
+    (∀ l, l ∈ onceLabels (a ++ b) ↔ (a ++ b).count l = 1) ∧ (onceLabels (a ++ b)).Pairwise (· < ·) := by
+  refine ⟨?_, fun l => mem_onceLabels, onceLabels_sorted _⟩
+  unfold elabEq ellCover
+  simp only [labels_map_lab, ellCount_map_lab, expandSub_map_lab]
+  by_cases h1 : a.length = sa.length <;> by_cases h2 : b.length = sb.length <;> simp [h1, h2, ellLabels]
+
+/-- **ellipsis**: what an accepted raw equation is turned into. Each operand has at most one `...`, which covers the
+`k = rank − #named` axes its named subscripts leave over (`ellCover`); the equation gets `K = max ka kb` ellipsis labels, all
+larger than every named label (fresh); each operand's `...` is replaced by its labels (`expandSub`, see
+`C15_einsum_ellipsis_alignment`), after which it has one label per axis; an explicit output has at most one `...`,
+replaced by ALL `K` labels (without it the ellipsis axes are contracted like any label missing from the output:
+`C15_sumLabels_spec`); an implicit output is the `K` ellipsis labels followed by the sorted once-only labels. -/
+theorem C15_einsum_ellipsis_spec {raw : RawEq} {sa sb : List Nat} {eq : EinEq} (h : elabEq raw sa sb = .ok eq) :
+    ∃ ka kb base, ellCover raw.a sa.length = some ka ∧ ellCover raw.b sb.length = some kb ∧
+      eq.a = expandSub base (max ka kb) ka raw.a ∧ eq.b = expandSub base (max ka kb) kb raw.b ∧
+      eq.a.length = sa.length ∧ eq.b.length = sb.length ∧
+      (∀ l ∈ Tok.labels raw.a ++ Tok.labels raw.b, l < base) ∧
+      (raw.out = none →
+        eq.out = ellLabels base (max ka kb) (max ka kb) ++ onceLabels (Tok.labels raw.a ++ Tok.labels raw.b)) ∧
+      (∀ o, raw.out = some o → Tok.ellCount o ≤ 1 ∧ eq.out = expandSub base (max ka kb) (max ka kb) o ∧
+        ∀ l ∈ Tok.labels o, l < base) := by
+  unfold elabEq at h
+  rcases hka : ellCover raw.a sa.length with _ | ka
+  · simp [hka] at h
+  rcases hkb : ellCover raw.b sb.length with _ | kb
+  · simp [hka, hkb] at h
+  simp only [hka, hkb] at h
+  have hlen : ∀ {ts : List Tok} {r k : Nat} (base K : Nat), ellCover ts r = some k →
+      (expandSub base K k ts).length = r := by
+    intro ts r k base K hc
+    rw [expandSub_length]
+    rcases ellCover_eq_some.1 hc with ⟨h0, h1, h2⟩ | ⟨h0, h1⟩
+    · rw [h0, h1]; simp
+    · rw [h0]; omega
+  rcases ho : raw.out with _ | o
+  · simp only [ho, List.append_nil] at h
+    cases h
+    have hb := le_foldl_max (Tok.labels raw.a ++ Tok.labels raw.b) 0
+    exact ⟨ka, kb, _, rfl, rfl, rfl, rfl, hlen _ _ hka, hlen _ _ hkb, fun l hl => Nat.lt_succ_of_le (hb.2 l hl),
+      fun _ => rfl, fun o ho' => (by cases ho')⟩
+  · simp only [ho] at h
+    split_ifs at h with he
+    cases h
+    have hb := le_foldl_max (Tok.labels raw.a ++ Tok.labels raw.b ++ Tok.labels o) 0
+    refine ⟨ka, kb, _, rfl, rfl, rfl, rfl, hlen _ _ hka, hlen _ _ hkb,
+      fun l hl => Nat.lt_succ_of_le (hb.2 l (List.mem_append_left _ hl)), fun hn => (by cases hn), fun o' ho' => ?_⟩
+    cases ho'
+    exact ⟨he, rfl, fun l hl => Nat.lt_succ_of_le (hb.2 l (List.mem_append_right _ hl))⟩
+
+/-- **ellipsis alignment**: in an operand `pre ... post` the named labels keep their places around the ellipsis labels;
+the `K` ellipsis labels are `base, …, base+K-1`; an ellipsis covering `k ≤ K` axes carries the LAST `k` of them, i.e. the
+axis `j` positions from the right end of ANY operand's ellipsis carries the same label `base + (K-1-j)`: ellipsis axes
+are matched from the right (and then broadcast by the size rule of `einOk`, like named labels). -/
+theorem C15_einsum_ellipsis_alignment (base : Nat) {K k : Nat} (hk : k ≤ K) (pre post : List Nat) :
+    expandSub base K k (pre.map Tok.lab ++ Tok.ell :: post.map Tok.lab) = pre ++ ellLabels base K k ++ post ∧
+    ellLabels base K K = (List.range K).map (fun i => base + i) ∧
+    ellLabels base K k = (ellLabels base K K).drop (K - k) ∧
+    ∀ j, j < k → (ellLabels base K k).reverse[j]? = some (base + (K - 1 - j)) := by
+  refine ⟨?_, ellLabels_full base K, ellLabels_suffix base hk, fun j hj => ellLabels_from_right base hk hj⟩
+  rw [expandSub_append, expandSub_map_lab]
+  simp [expandSub, expandSub_map_lab]
+
+/-- **einsum on an equation string**: an accepted string behaves as its elaborated explicit equation (to which
+`C15_einsum`, `C15_einsum_flags`, `C15_rejects_einsum` apply); a string torch rejects raises `RuntimeError` as soon as a
+part is requested; with neither part requested the result is `None` whatever the string. -/
+theorem C15_einsum_string {a b : Tensor R} {sa sb : List Nat} (raw : RawEq) (ha : IsCplx a sa) (hb : IsCplx b sb)
+    (rp ip : Bool) :
+    (∀ eq, elabEq raw sa sb = .ok eq → einsumS raw a b rp ip = einsum eq a b rp ip) ∧
+    (∀ e, elabEq raw sa sb = .error e → rp = true ∨ ip = true → einsumS raw a b rp ip = .error .RuntimeError) ∧
+    einsumS raw a b false false = .ok .none := by
+  have hsa : a.shape.drop 1 = sa := by rw [ha.1]; rfl
+  have hsb : b.shape.drop 1 = sb := by rw [hb.1]; rfl
+  refine ⟨fun eq h => ?_, fun e h hp => ?_, ?_⟩
+  · unfold einsumS; rw [hsa, hsb, h]
+  · unfold einsumS; rw [hsa, hsb, h]
+    exact C15_rejects_einsum badEq ha hb (by simp [einOk, badEq]) rp ip hp
+  · unfold einsumS; split <;> rfl
+
 /-- **kronecker_prod** for arbitrary (NON-SQUARE) matrices `a×b`, `c×d`: shape `(a·c)×(b·d)` and
 entry `(i·c + k, j·d + l) = x_ij · y_kl`. -/
 theorem C15_kronecker_prod {x y : Tensor R} {a b c d : Nat} (hx : IsCplx x [a, b]) (hy : IsCplx y [c, d]) :
@@ -789,43 +906,61 @@ theorem C15_dec_sums (n : ℕ) (f : Fin n → C ℝ) (l : List (C ℝ)) :
     dec (C.sum n f) = ∑ i, dec (f i) ∧ dec (cpairSum l) = (l.map dec).sum :=
   ⟨dec_sum n f, dec_cpairSum l⟩
 
+/-- **hypot**: the scaled formula the model (and C99 / `torch.hypot`) uses for the modulus IS `√(a² + b²)`, for all
+reals including `a = b = 0` (where the scale is 0 and the formula must not divide). -/
+theorem C15_hypot (a b : ℝ) : hypot a b = Real.sqrt (a * a + b * b) ∧ hypot a b = ‖dec (a, b)‖ :=
+  ⟨hypot_eq a b, hypot_eq_norm (a, b)⟩
+
+/-- **why the scaled forms cannot overflow**: for a non-zero entry the components divided by the larger one lie in
+`[-1, 1]` and `|z/scale|²` in `[1, 2]` — the quantities `inverse`, `elementwise_division` and `hypot` square are of
+order 1 whatever the magnitude of `z` (the pre-repair code squared `z` itself). -/
+theorem C15_scaled_operand_range {z : Tensor ℝ} {s : List Nat} (hz : IsCplx z s) :
+    ∃ sc w, cscale z = .ok sc ∧ bop (fun a b => a / b) z sc = .ok w ∧ IsCplx w s ∧
+      ∀ idx, Valid s idx → dec (centry z idx) ≠ 0 →
+        0 < sc.at idx ∧ dec (centry w idx) = dec (centry z idx) / (sc.at idx : ℂ) ∧
+        |(centry w idx).1| ≤ 1 ∧ |(centry w idx).2| ≤ 1 ∧ 1 ≤ C.normSq (centry w idx) ∧ C.normSq (centry w idx) ≤ 2 := by
+  obtain ⟨hss, hsw, hse⟩ := zip_planes (fun a b : ℝ => Transc.max (Transc.abs a) (Transc.abs b)) hz
+  obtain ⟨w, hw, hwc, hwe⟩ := bop_planes (fun a b : ℝ => a / b) hz hss
+  refine ⟨_, w, by unfold cscale; rw [real_eq hz, imag_eq hz]; rfl, hw, hwc, fun idx hv hne => ?_⟩
+  have hpos := cscale_pos hne
+  obtain ⟨h1, h2, h3, h4⟩ := scaled_bounds (centry z idx).1 (centry z idx).2 hpos
+  rw [hwe idx hv, hse idx hv]
+  simp only [transc_max, transc_abs]
+  refine ⟨hpos, ?_, h1, h2, h3, h4⟩
+  apply Complex.ext <;> simp [Complex.div_re, Complex.div_im, Complex.normSq_apply] <;> field_simp
+
 /-- **absolute_value**: the complex modulus, entrywise, every rank. -/
 theorem C15_absolute_value {x : Tensor ℝ} {s : List Nat} (hx : IsCplx x s) :
     ∃ r, absoluteValue x = .ok r ∧ r.shape = s ∧ WF r ∧ ∀ idx, Valid s idx → r.at idx = ‖dec (centry x idx)‖ := by
-  obtain ⟨xs, hxs, hxsc, hxse⟩ := C15_conj hx
-  obtain ⟨p, hp, hpc, hpe⟩ := C15_scalar_mult hx hxsc (broadcastShape_self s)
+  obtain ⟨hss, hsw, hse⟩ := zip_planes (hypot (α := ℝ)) hx
   unfold absoluteValue
-  rw [hxs]
-  simp only [ok_bind, elementwiseMult, hp, real_eq hpc, pure_eq_ok]
-  refine ⟨_, rfl, rfl, wf_map _ _ (reT_wf hpc), fun idx hv => ?_⟩
-  rw [at_map _ _ (reT_wf hpc) (by simpa using hv), reT_at hpc hv, hpe idx hv, bidx_self hv, hxse idx hv]
-  simp only [transc_sqrt]
-  exact abs_code _
+  rw [real_eq hx, imag_eq hx]
+  simp only [ok_bind, pure_eq_ok]
+  refine ⟨_, rfl, hss, hsw, fun idx hv => ?_⟩
+  rw [hse idx hv]
+  exact hypot_eq_norm _
 
 /-- **elementwise_division**: `x / y` entrywise for equally shaped operands, at every entry where `y ≠ 0`
-(at `y = 0` the code yields `nan`/`inf`; recorded in notes/C15.md). -/
+(at `y = 0` the code yields `nan`; recorded in notes/C15.md). -/
 theorem C15_elementwise_division {x y : Tensor ℝ} {s : List Nat} (hx : IsCplx x s) (hy : IsCplx y s) :
     ∃ z, elementwiseDivision x y = .ok z ∧ IsCplx z s ∧
       ∀ idx, Valid s idx → dec (centry y idx) ≠ 0 → dec (centry z idx) = dec (centry x idx) / dec (centry y idx) := by
-  obtain ⟨ys, hys, hysc, hyse⟩ := C15_conj hy
-  obtain ⟨ab, hab, habs, habw, habe⟩ := C15_absolute_value hy
-  obtain ⟨p, hp, hpc, hpe⟩ := C15_scalar_mult hx hysc (broadcastShape_self s)
+  obtain ⟨hss, hsw, hse⟩ := zip_planes (fun a b : ℝ => Transc.max (Transc.abs a) (Transc.abs b)) hy
+  obtain ⟨y', hy', hy'c, hy'e⟩ := bop_planes (fun a b : ℝ => a / b) hy hss
+  obtain ⟨ys, hys, hysc, hyse⟩ := C15_conj hy'c
+  obtain ⟨ab, hab, habs, habw, habe⟩ := C15_absolute_value hy'c
+  obtain ⟨x', hx', hx'c, hx'e⟩ := bop_planes (fun a b : ℝ => a / b) hx hss
+  obtain ⟨p, hp, hpc, hpe⟩ := C15_scalar_mult hx'c hysc (broadcastShape_self s)
   have hsh : ¬ x.shape ≠ y.shape := by rw [hx.1, hy.1]; simp
-  unfold elementwiseDivision
-  rw [if_neg hsh, hys]
-  simp only [ok_bind, hab, elementwiseMult, hp]
-  rw [bop_eq _ p (ab.map fun v => v * v) (r := 2 :: s)
-    (by rw [hpc.1, map_shape, habs]; exact broadcastShape_cons_tail 2 s)]
-  refine ⟨_, rfl, isCplx_build _ _, fun idx hv hne => ?_⟩
-  have hv0 : Valid (2 :: s) (0 :: idx) := by simp [hv]
-  have hv1 : Valid (2 :: s) (1 :: idx) := by simp [hv]
-  rw [centry_build _ hv]
-  simp only [hpc.1, map_shape, habs, bidx_self hv0, bidx_self hv1, bidx_tail _ hv,
-    at_map _ _ habw (idx := idx) (by rw [habs]; exact hv), habe idx hv]
-  have hp0 : p.at (0 :: idx) = (centry p idx).1 := rfl
-  have hp1 : p.at (1 :: idx) = (centry p idx).2 := rfl
-  rw [hp0, hp1, hpe idx hv, bidx_self hv, hyse idx hv, ← abs_code]
-  exact dec_div_code _ _ hne
+  unfold elementwiseDivision cscale
+  rw [if_neg hsh, real_eq hy, imag_eq hy]
+  simp only [ok_bind, pure_eq_ok, hy', hys, hab, hx', elementwiseMult, hp]
+  obtain ⟨z, hz, hzc, hze⟩ := bop_planes (fun a b : ℝ => a / b) hpc
+    (sc := ab.map fun v => v * v) (by rw [map_shape, habs])
+  refine ⟨z, hz, hzc, fun idx hv hne => ?_⟩
+  rw [hze idx hv, at_map _ _ habw (idx := idx) (by rw [habs]; exact hv), habe idx hv, hpe idx hv, bidx_self hv,
+    hyse idx hv, hx'e idx hv, hy'e idx hv, hse idx hv, ← hypot_eq_norm]
+  exact dec_div_scaled _ _ _ (ne_of_gt (cscale_pos hne)) hne
 
 /-- `elementwise_division` raises `ValueError` exactly on operands of different shapes (equal sizes or
 broadcastable shapes are NOT enough). -/
@@ -837,21 +972,18 @@ theorem C15_rejects_elementwise_division (x y : Tensor ℝ) (h : x.shape ≠ y.s
 theorem C15_inverse {z : Tensor ℝ} {s : List Nat} (hz : IsCplx z s) :
     ∃ w, inverse z = .ok w ∧ IsCplx w s ∧
       ∀ idx, Valid s idx → dec (centry z idx) ≠ 0 → dec (centry w idx) = (dec (centry z idx))⁻¹ := by
-  obtain ⟨zs, hzs, hzsc, hzse⟩ := C15_conj hz
-  obtain ⟨p, hp, hpc, hpe⟩ := C15_scalar_mult hz hzsc (broadcastShape_self s)
-  unfold inverse
-  rw [hzs]
-  simp only [ok_bind, hp, real_eq hpc]
-  rw [bop_eq _ zs (reT p s) (r := 2 :: s) (by rw [hzsc.1, reT_shape]; exact broadcastShape_cons_tail 2 s)]
-  refine ⟨_, rfl, isCplx_build _ _, fun idx hv _ => ?_⟩
-  have hv0 : Valid (2 :: s) (0 :: idx) := by simp [hv]
-  have hv1 : Valid (2 :: s) (1 :: idx) := by simp [hv]
-  rw [centry_build _ hv]
-  simp only [hzsc.1, reT_shape, bidx_self hv0, bidx_self hv1, bidx_tail _ hv, reT_at hpc hv]
-  have h0 : zs.at (0 :: idx) = (centry zs idx).1 := rfl
-  have h1 : zs.at (1 :: idx) = (centry zs idx).2 := rfl
-  rw [h0, h1, hpe idx hv, bidx_self hv, hzse idx hv]
-  exact dec_inv_code _
+  obtain ⟨hss, hsw, hse⟩ := zip_planes (fun a b : ℝ => Transc.max (Transc.abs a) (Transc.abs b)) hz
+  obtain ⟨z', hz', hz'c, hz'e⟩ := bop_planes (fun a b : ℝ => a / b) hz hss
+  obtain ⟨zs, hzs, hzsc, hzse⟩ := C15_conj hz'c
+  obtain ⟨p, hp, hpc, hpe⟩ := C15_scalar_mult hz'c hzsc (broadcastShape_self s)
+  obtain ⟨q, hq, hqc, hqe⟩ := bop_planes (fun a b : ℝ => a / b) hzsc (reT_shape p s)
+  obtain ⟨w, hw, hwc, hwe⟩ := bop_planes (fun a b : ℝ => a / b) hqc hss
+  unfold inverse cscale
+  rw [real_eq hz, imag_eq hz]
+  simp only [ok_bind, pure_eq_ok, hz', hzs, hp, real_eq hpc, hq]
+  refine ⟨w, hw, hwc, fun idx hv hne => ?_⟩
+  rw [hwe idx hv, hqe idx hv, reT_at hpc hv, hpe idx hv, bidx_self hv, hzse idx hv, hz'e idx hv, hse idx hv]
+  exact dec_inv_scaled _ _ (ne_of_gt (cscale_pos hne))
 
 /-- **scalar_divide**: `x / y` with the same broadcasting as `scalar_mult`, wherever the divisor entry is non-zero. -/
 theorem C15_scalar_divide {x y : Tensor ℝ} {sx sy r : List Nat} (hx : IsCplx x sx) (hy : IsCplx y sy)
@@ -867,31 +999,55 @@ theorem C15_scalar_divide {x y : Tensor ℝ} {sx sy r : List Nat} (hx : IsCplx x
   refine ⟨z, hz, hzc, fun idx hv hne => ?_⟩
   rw [hze idx hv, dec_mul, hiye _ (broadcast_valid hb hv).2 hne, div_eq_mul_inv]
 
-/-- **norm**: the Euclidean norm `√(Σ_c |x_c|²)` of a complex vector, `|x|` of a complex scalar. -/
+/-- the scale `norm` divides by is positive (the largest component, or 1 for the zero tensor) -/
+theorem normScale_pos (l : List ℝ) : 0 < (if 0 < maxAbs l then maxAbs l else 1) := by
+  split_ifs with h
+  · exact h
+  · exact one_pos
+
+/-- **norm**: the Euclidean norm `√(Σ_c |x_c|²)` of a complex vector, `|x|` of a complex scalar (zero tensors included:
+the scale is then 1). -/
 theorem C15_norm {x : Tensor ℝ} :
     (∀ n, IsCplx x [n] → ∃ r, Cplx.norm x = .ok r ∧ r.shape = [] ∧
       r.at [] = Real.sqrt (∑ c : Fin n, ‖dec (centry x [c.val])‖ ^ 2)) ∧
     (IsCplx x [] → ∃ r, Cplx.norm x = .ok r ∧ r.shape = [] ∧ r.at [] = ‖dec (centry x [])‖) := by
+  have hpos := normScale_pos x.data
+  set sc : ℝ := if 0 < maxAbs x.data then maxAbs x.data else 1 with hsc
+  have key : ∀ a b : ℝ, C.normSq (a / sc, b / sc) = C.normSq (a, b) / (sc * sc) := by
+    intro a b; simp only [C.normSq]; field_simp
+  have hsqrt : ∀ t : ℝ, 0 ≤ t → Real.sqrt (t / (sc * sc)) * sc = Real.sqrt t := by
+    intro t ht
+    rw [Real.sqrt_div ht, Real.sqrt_mul_self hpos.le, div_mul_cancel₀ _ (ne_of_gt hpos)]
   constructor
   · intro n hx
-    obtain ⟨r, hr, hrs, hrw, hre⟩ := (C15_norm_sqr (x := x)).1 n hx
+    obtain ⟨hmc, hme⟩ := map_cplx (fun v : ℝ => v / sc) hx
+    obtain ⟨r, hr, hrs, hrw, hre⟩ := (C15_norm_sqr (x := x.map fun v => v / sc)).1 n hmc
     unfold Cplx.norm
-    rw [hr]
-    simp only [ok_bind, pure_eq_ok]
+    simp only [← hsc, hr, ok_bind, pure_eq_ok]
     refine ⟨_, rfl, hrs, ?_⟩
     rw [at_map _ _ hrw (by rw [hrs]; exact valid_nil), hre]
-    simp only [transc_sqrt, dec_normSq, Complex.normSq_eq_norm_sq]
+    simp only [transc_sqrt]
+    have : ∑ c : Fin n, C.normSq (centry (x.map fun v => v / sc) [c.val])
+        = (∑ c : Fin n, ‖dec (centry x [c.val])‖ ^ 2) / (sc * sc) := by
+      rw [div_eq_mul_inv, Finset.sum_mul]
+      refine Finset.sum_congr rfl (fun c _ => ?_)
+      rw [hme [c.val] (by simp), key, dec_normSq, Complex.normSq_eq_norm_sq, div_eq_mul_inv]
+    rw [this]
+    exact hsqrt _ (Finset.sum_nonneg (fun c _ => by positivity))
   · intro hx
-    obtain ⟨r, hr, hrs, hrw, hre⟩ := (C15_norm_sqr (x := x)).2 hx
+    obtain ⟨hmc, hme⟩ := map_cplx (fun v : ℝ => v / sc) hx
+    obtain ⟨r, hr, hrs, hrw, hre⟩ := (C15_norm_sqr (x := x.map fun v => v / sc)).2 hmc
     unfold Cplx.norm
-    rw [hr]
-    simp only [ok_bind, pure_eq_ok]
+    simp only [← hsc, hr, ok_bind, pure_eq_ok]
     refine ⟨_, rfl, hrs, ?_⟩
-    rw [at_map _ _ hrw (by rw [hrs]; exact valid_nil), hre]
-    simp only [transc_sqrt, dec_normSq, Complex.norm_def]
+    rw [at_map _ _ hrw (by rw [hrs]; exact valid_nil), hre, hme [] valid_nil, key]
+    simp only [transc_sqrt]
+    rw [hsqrt _ (by unfold C.normSq; exact add_nonneg (mul_self_nonneg _) (mul_self_nonneg _)), dec_normSq,
+      Complex.norm_def]
 
 /-- **sigmoid(x, y)** of two real tensors (numpy broadcasting): the complex logistic function
-`e^z / (1 + e^z)` of `z = x + iy`, wherever `1 + e^z ≠ 0` (at `z = iπ` the code divides by ≈0; notes/C15.md). -/
+`e^z / (1 + e^z)` of `z = x + iy`, wherever `1 + e^z ≠ 0` (at `z = iπ` the code divides by ≈0; notes/C15.md).
+The model computes it as the repaired code does (`1/(1+e^{-z})` for `Re z > 0`, `e^z/(1+e^z)` otherwise). -/
 theorem C15_sigmoid {x y : Tensor ℝ} {r : List Nat} (hb : broadcastShape x.shape y.shape = .ok r) :
     ∃ z, Cplx.sigmoid x y = .ok z ∧ IsCplx z r ∧
       ∀ idx, Valid r idx →
@@ -904,6 +1060,17 @@ theorem C15_sigmoid {x y : Tensor ℝ} {r : List Nat} (hb : broadcastShape x.sha
     (cat2_spec (s := r) (fun idx => sigC (x.at (bidx x.shape idx), y.at (bidx y.shape idx)))
       rfl rfl (wf_build _ _) (wf_build _ _) (fun idx hv => by rw [at_build _ hv, at_build _ hv]))
   rw [h.2.2 idx hv, dec_sigC _ hne]
+
+/-- **the exponential the sigmoid forms cannot overflow**: whichever branch `sigC` takes, the argument of its `exp` has
+non-positive real part, so `|e^{±z}| ≤ 1` (the pre-repair formula `e^z/(1+e^z)` formed `e^z`, which is `inf` for
+`Re z > 709.78`). -/
+theorem C15_sigmoid_exp_bounded (z : C ℝ) :
+    sigC z = (let e := expC (if 0 < z.1 then C.neg z else z)
+              C.div (if 0 < z.1 then C.one else e) (1 + e.1, e.2)) ∧
+    ‖dec (expC (if 0 < z.1 then C.neg z else z))‖ ≤ 1 := by
+  refine ⟨?_, sigC_exp_bounded z⟩
+  unfold sigC
+  split_ifs <;> rfl
 
 /-- `sigmoid` raises numpy's `ValueError` when the two real tensors do not broadcast. -/
 theorem C15_rejects_sigmoid {x y : Tensor ℝ} {e : PyErr} (hb : broadcastShape x.shape y.shape = .error e) :
@@ -1027,6 +1194,75 @@ theorem C15_einsum_ib_ibg {a y : Tensor ℝ} {n B G : ℕ} (ha : IsCplx a [n, B]
   have e3 : (if G = 1 then 0 else g) = g := by split_ifs with h <;> omega
   simp [opIdx, envVal, List.lookup, e1, e2, e3]
 
+/-- the implicit-output string `"ij,jk"` (no `->`; character codes `i j k` = 105 106 107) elaborates to `ij,jk->ik` and
+is the complex matrix product: `z[i, k] = Σ_j a[i, j] · b[j, k]`. -/
+theorem C15_einsum_implicit_matmul {a b : Tensor ℝ} {m n p : ℕ} (ha : IsCplx a [m, n]) (hb : IsCplx b [n, p]) :
+    ∃ z, einsumS ⟨[.lab 105, .lab 106], [.lab 106, .lab 107], none⟩ a b true true = .ok (.cplx z) ∧ IsCplx z [m, p] ∧
+      ∀ i k, i < m → k < p →
+        dec (centry z [i, k]) = ∑ j : Fin n, dec (centry a [i, j.val]) * dec (centry b [j.val, k]) := by
+  have hel : elabEq ⟨[.lab 105, .lab 106], [.lab 106, .lab 107], none⟩ [m, n] [n, p]
+      = .ok ⟨[105, 106], [106, 107], [105, 107]⟩ := by rfl
+  have hS := (C15_einsum_string (R := ℝ) _ ha hb true true).1 _ hel
+  have hok : einOk ⟨[105, 106], [106, 107], [105, 107]⟩ [m, n] [n, p] = true := by
+    simp [einOk, operandOk, labelDim, labelSize, List.lookup, nodupB, bdim]
+  obtain ⟨z, hz1, hzf, _, _⟩ := C15_einsum ⟨[105, 106], [106, 107], [105, 107]⟩ ha hb hok
+  obtain ⟨z', hz', hc, he⟩ := C15_einsum_complex ⟨[105, 106], [106, 107], [105, 107]⟩ ha hb hok
+  have hzz : z' = z := by rw [hzf] at hz'; injection hz' with h; exact h.symm
+  subst hzz
+  have hsh : (EinEq.out ⟨[105, 106], [106, 107], [105, 107]⟩).map
+      (einSize ⟨[105, 106], [106, 107], [105, 107]⟩ [m, n] [n, p]) = [m, p] := by
+    simp [einSize, labelSize, labelDim, List.lookup]
+  have hs0 : sumLabels ⟨[105, 106], [106, 107], [105, 107]⟩ = [106] := by decide
+  have hsz : einSize ⟨[105, 106], [106, 107], [105, 107]⟩ [m, n] [n, p] 106 = n := by
+    simp [einSize, labelSize, labelDim, List.lookup_cons, bdim]
+  rw [hsh] at hc he
+  refine ⟨z', by rw [hS]; exact hz1, hc, fun i k hi hk => ?_⟩
+  rw [he [i, k] (by simp [hi, hk]), hs0]
+  simp only [List.map_cons, List.map_nil, hsz, allIdx]
+  rw [flatMap_singletons, List.map_map, ← range_map_sum (fun j => dec (centry a [i, j]) * dec (centry b [j, k])) n]
+  congr 1
+  refine List.map_congr_left (fun j hj => ?_)
+  have hj' : j < n := List.mem_range.1 hj
+  have e1 : (if m = 1 then 0 else i) = i := by split_ifs with h <;> omega
+  have e2 : (if n = 1 then 0 else j) = j := by split_ifs with h <;> omega
+  have e3 : (if p = 1 then 0 else k) = k := by split_ifs with h <;> omega
+  simp [opIdx, envVal, List.lookup, e1, e2, e3]
+
+/-- the ellipsis string `"...j,jk->...k"` on a batch of row vectors `(B, n)` and a matrix `(n, p)`: the ellipsis of the
+first operand covers its batch axis, the second operand has none, and `z[t, k] = Σ_j a[t, j] · b[j, k]`. -/
+theorem C15_einsum_ellipsis_batched {a b : Tensor ℝ} {B n p : ℕ} (ha : IsCplx a [B, n]) (hb : IsCplx b [n, p]) :
+    ∃ z, einsumS ⟨[.ell, .lab 106], [.lab 106, .lab 107], some [.ell, .lab 107]⟩ a b true true = .ok (.cplx z) ∧
+      IsCplx z [B, p] ∧
+      ∀ t k, t < B → k < p →
+        dec (centry z [t, k]) = ∑ j : Fin n, dec (centry a [t, j.val]) * dec (centry b [j.val, k]) := by
+  have hel : elabEq ⟨[.ell, .lab 106], [.lab 106, .lab 107], some [.ell, .lab 107]⟩ [B, n] [n, p]
+      = .ok ⟨[108, 106], [106, 107], [108, 107]⟩ := by rfl
+  have hS := (C15_einsum_string (R := ℝ) _ ha hb true true).1 _ hel
+  have hok : einOk ⟨[108, 106], [106, 107], [108, 107]⟩ [B, n] [n, p] = true := by
+    simp [einOk, operandOk, labelDim, labelSize, List.lookup, nodupB, bdim]
+  obtain ⟨z, hz1, hzf, _, _⟩ := C15_einsum ⟨[108, 106], [106, 107], [108, 107]⟩ ha hb hok
+  obtain ⟨z', hz', hc, he⟩ := C15_einsum_complex ⟨[108, 106], [106, 107], [108, 107]⟩ ha hb hok
+  have hzz : z' = z := by rw [hzf] at hz'; injection hz' with h; exact h.symm
+  subst hzz
+  have hsh : (EinEq.out ⟨[108, 106], [106, 107], [108, 107]⟩).map
+      (einSize ⟨[108, 106], [106, 107], [108, 107]⟩ [B, n] [n, p]) = [B, p] := by
+    simp [einSize, labelSize, labelDim, List.lookup]
+  have hs0 : sumLabels ⟨[108, 106], [106, 107], [108, 107]⟩ = [106] := by decide
+  have hsz : einSize ⟨[108, 106], [106, 107], [108, 107]⟩ [B, n] [n, p] 106 = n := by
+    simp [einSize, labelSize, labelDim, List.lookup_cons, bdim]
+  rw [hsh] at hc he
+  refine ⟨z', by rw [hS]; exact hz1, hc, fun t k ht hk => ?_⟩
+  rw [he [t, k] (by simp [ht, hk]), hs0]
+  simp only [List.map_cons, List.map_nil, hsz, allIdx]
+  rw [flatMap_singletons, List.map_map, ← range_map_sum (fun j => dec (centry a [t, j]) * dec (centry b [j, k])) n]
+  congr 1
+  refine List.map_congr_left (fun j hj => ?_)
+  have hj' : j < n := List.mem_range.1 hj
+  have e1 : (if B = 1 then 0 else t) = t := by split_ifs with h <;> omega
+  have e2 : (if n = 1 then 0 else j) = j := by split_ifs with h <;> omega
+  have e3 : (if p = 1 then 0 else k) = k := by split_ifs with h <;> omega
+  simp [opIdx, envVal, List.lookup, e1, e2, e3]
+
 end complex
 /-! ### the hypotheses are satisfiable: concrete, non-trivial instances evaluated by the model itself -/
 section examples
@@ -1069,6 +1305,26 @@ example : dec (1, 2) ≠ 0 := by intro h; have := congrArg Complex.re h; simp at
 example : 1 + Complex.exp (dec (0, 0)) ≠ 0 := by
   have : dec (0, 0) = 0 := rfl
   rw [this, Complex.exp_zero]; norm_num
+
+/-- `"b...a,a"` on shapes `(2,5,3)`, `(3)`: the ellipsis covers the middle axis and gets the fresh label 99; implicit output =
+ellipsis axes first, then the once-only labels sorted: `...b` (torch returns shape `(5, 2)`) -/
+example : elabEq ⟨[.lab 98, .ell, .lab 97], [.lab 97], none⟩ [2, 5, 3] [3] = .ok ⟨[98, 99, 97], [97], [99, 98]⟩ := by rfl
+/-- ellipses of different lengths are aligned from the right: `"...a,...b"` on `(2,3)`, `(2,1,4)` -/
+example : elabEq ⟨[.ell, .lab 97], [.ell, .lab 98], none⟩ [2, 3] [2, 1, 4] = .ok ⟨[100, 97], [99, 100, 98], [99, 100, 97, 98]⟩ := by
+  rfl
+/-- an ellipsis left out of an explicit output is contracted (`"...j,jk->k"`), two ellipses in one operand are rejected -/
+example : (elabEq ⟨[.ell, .lab 106], [.lab 106, .lab 107], some [.lab 107]⟩ [5, 2, 3] [3, 4]).map sumLabels = .ok [108, 109, 106] := by
+  rfl
+example : elabEq ⟨[.ell, .lab 105, .ell], [.lab 105], some [.lab 105]⟩ [2, 2] [2] = .error .RuntimeError := by rfl
+/-- upper-case labels sort before lower-case ones in an implicit output (`"a,B"` → `Ba`) -/
+example : onceLabels [97, 66] = [66, 97] := by rfl
+/-- `"ba,ac"` (implicit) on Gaussian integers: the output is `bc` (sorted once-only labels), contraction over `a`;
+`x = [[1+i, 2]]` (`b=1, a=2`), `y = [[3], [i]]` (`a=2, c=1`): `z = (1+i)·3 + 2·i = 3 + 5i` -/
+example : einsumS ⟨[.lab 98, .lab 97], [.lab 97, .lab 99], none⟩ (⟨[2, 1, 2], [1, 2, 1, 0]⟩ : Tensor ℤ) ⟨[2, 2, 1], [3, 0, 0, 1]⟩
+    true true = .ok (.cplx ⟨[2, 1, 1], [3, 5]⟩) := by rfl
+/-- `hypot` on the exact carrier side: the scaled formula divides by the larger component first -/
+example : cscale (⟨[2, 2], [3, -1, -4, 0]⟩ : Tensor ℝ) = .ok ⟨[2], [max |3| |(-4)|, max |(-1)| |0|]⟩ := by
+  simp [cscale, real, imag, numel, Tensor.zip]
 
 end examples
 end C15
